@@ -1,6 +1,6 @@
 (* Proofs/ViewsBase.v -- lemmas and tactics shared by the per-type proofs of
    C01 (getters safe and inside the view) and C02 (getter = RFC position). *)
-From PV Require Export Base.Prelude Base.Slice Model.ViewsBase Model.Views Model.Views2 Model.ViewsVar Model.ViewsKnown Spec.Views Spec.Views2.
+From PV Require Export Base.Prelude Base.Slice Model.ViewsBase Model.Views Model.Views2 Model.ViewsVar Model.ViewsKnown Spec.Views Spec.Views2 Spec.ViewsNDP.
 Open Scope N_scope.
 
 (* ---------------------------------------------------------------- *)
